@@ -4,8 +4,9 @@ from . import ctr_common as C
 ID = "C07"
 MOD = "harness.props.c07"
 T = "MetadorModel.C07."
+B = "MetadorModel.Bridge.TocFns."  # translated tie (harness/translate_c06.py)
 LEAN = dict(
-    modules=["MetadorModel.Props.C07"],
+    modules=["MetadorModel.Props.C07", "MetadorModel.Bridge.TocFnsPaths", "MetadorModel.Bridge.TocFnsSchemas", "MetadorModel.Bridge.TocFnsMeta", "MetadorModel.Bridge.TocFnsWrap"],
     theorems=[T + n for n in (
         "get_sound",
         "get_complete",
@@ -28,9 +29,27 @@ LEAN = dict(
         "aux_refused",
         "query_exact",
         "query_ok_iff",
+    )] + [B + n for n in (
+        "gen_versions",
+        "gen_children",
+        "gen_parent_path",
+        "gen_require_schema",
+        "gen_get_raw",
+        "gen_set_raw",
+        "gen_del_raw",
+        "gen_setitem",
+        "gen_delitem",
+        "gen_query",
+        "gen_contains",
+        "gen_get",
+        "gen_meta_init",
+        "gen_toc_query",
     )],
     drivers=["drv_ctr"],
 )
+
+
+translate = C.translate
 
 
 def impl(case):
